@@ -99,6 +99,16 @@ def replay(prop, path, seed):
     rec = json.load(open(path))
     m = rec["mismatch"]
     rw = rec.get("replay_with") or ""
+    if m.get("what") == "not-linearizable" and m.get("row"):
+        # a recorded execution: validated again by TLC against the current spec/CacheLin.tla
+        import lintrace
+        ok, _ = lintrace.validate_events(m["row"]["trace"], "linreplay")
+        if not ok:
+            print("VIOLATION property=%s replay=%s" % (prop, path))
+            print("  what=not-linearizable: the recorded execution is still rejected by spec/CacheLin.tla (first unexplained entry: %s)" % json.dumps(m.get("got"))[:400])
+            return 1
+        print("the recorded execution is accepted by the current specification")
+        return 0
     if not rw or m.get("row") is None:
         print("this record carries no replayable case")
         return 2
@@ -267,7 +277,7 @@ def cacheseq(prop, tier, seed):
         fa = scratch_file("c01auto.ndjson")
         write_rows(arows, fa)
         try:
-            ares, _ = run_harness("replay-auto", ["-cases", fa, "-seed", seed, "-pacings", "0,1,2"], timeout=3000)
+            ares, _ = run_harness("replay-auto", ["-cases", fa, "-seed", seed, "-pacings", "0,1,2,3"], timeout=3000)
         finally:
             os.unlink(fa)
         tool_errors(ares["mismatches"])
